@@ -116,6 +116,7 @@ def run(chk):
     chk.trust("sorted() is stable and ascending unless reverse=True", "symx decision tables")
     chk.assume("the contests dict is keyed by Contest.id (the counter is written under the dict key and read under con.id)",
                "sample numbers are distinct")
+    r4_state(chk)  # first: stands even if the structure below is not recognised
     f = sampling_facts(chk)
     r1(chk, f)
     r2(chk, f)
@@ -311,6 +312,11 @@ def attr_reads_of(node, bases):
     return out
 
 
+def r4_state(chk):
+    aud.keeps_no_state(chk, "C07.R4", REL, ["CVR.consistent_sampling", "CVR.assign_sample_nums", "CVR.has_contest"],
+                       "the selection is a function of the cards, the contests and the earlier selection handed in")
+
+
 def r4(chk, f):
     fn, where = f["fn"], W("CVR.consistent_sampling")
     # every expression denoting a card: cvr_list[...] , and the element of enumerate(cvr_list) inside the key lambda
@@ -402,6 +408,11 @@ def r6(chk):
     asserts = [norm(a.test) for a in walk_local(fn) if isinstance(a, ast.Assert)]
     ok_a = any("len(cvr_sample)==len(mvr_sample)" in a or "len(mvr_sample)==len(cvr_sample)" in a for a in asserts) and \
         any(".id==" in a for a in asserts)
+    # ... on every call: nothing leaves the function before both sorts (samples that are "already paired" are not thereby in
+    # selection order), and the sorts are not inside a branch
+    early = [x for x in walk_local(fn) if isinstance(x, (ast.Return, ast.Raise)) and sorts and x.lineno < max(c.lineno for c in sorts)]
+    cond_sorts = [c for c in sorts if not isinstance(parent(parent(c)), ast.FunctionDef)]
+    ok = ok and not early and not cond_sorts
     chk.ob("C07.R6", W("CVR.prep_comparison_sample"), "same-sort-key", ok and ok_a,
            "MVRs and CVRs are sorted ascending by the same key, the recorded selection order, and equal length and pairwise equal ids "
            "are asserted", node=fn, strength="N", keys=keys)
